@@ -1774,7 +1774,7 @@ class Engine:
         key = f.key
         h = None if force_inline else self.policy.get(key)
         if h is None and not force_inline:
-            if f.nested or self.policy.get("default") == "inline":
+            if f.nested or self.policy.get("default") == "inline" or any(key.startswith(pre) for pre in self.policy.get("inline", ())):
                 h = "inline"
             else:
                 h = "opaque"
